@@ -62,6 +62,7 @@ def run(chk) -> None:
     )
     chk.trusted = ["CPython ast", "scipy KDTree.query_pairs returns every pair within the radius exactly once"]
     chk.assumptions = ["float distance arithmetic is not decided", "atom typing by first letter of the name as coded (C/N/O/P)"]
+    chk.robust |= {"atom-types", "molprobity-term", "search-radius", "distance-region", "option-extra-filter", "optional-truthiness", "cli-arguments", "accumulator", "csv-metadata-arg"}
     radii = atom_types(chk)
     at = repo.cls(M, "AtomType")
     chk.expect(set(radii) == {"C", "N", "O", "P"} and all(isinstance(v, float) and v > 0 for v in radii.values()), "atom-types", f"src/rnapolis/clashfinder.py:{at.lineno} AtomType", f"four atom types with radii {radii}", f"atom types/radii are not total over C, N, O, P: {radii}", f"{M}:AtomType:radii", found=radii)
@@ -196,6 +197,22 @@ def run(chk) -> None:
     chk.expect(ok, "cli-arguments", mn.where, "every option is passed to the parameter of the same name", "CLI options are not passed to find_clashes parameters of the same name (positional mix-up)", K(mn, "cli-args"), expected=["structure3d.residues"] + [f"args.{p}" for p in params[1:]], found=found)
     flags = sorted(a.args[0].value for a in astq.calls(mn.node, "add_argument") if a.args and isinstance(a.args[0], ast.Constant) and any(k.arg == "action" and norm(k.value) == "'store_true'" for k in a.keywords))
     chk.expect(flags == sorted("--" + p.replace("_", "-") for p in params[1:]), "cli-arguments", mn.where, "one boolean switch per option", "the set of boolean switches differs from find_clashes' options", K(mn, "cli-flags"), found=flags)
+    # CSV: read_metadata(file: IO) needs an open file (it uses file.name), not the path string
+    for c2 in astq.calls(mn.node, "read_metadata"):
+        a0 = c2.args[0] if c2.args else None
+        opened = set()
+        for w in [x for x in ast.walk(mn.node) if isinstance(x, ast.With)]:
+            for it in w.items:
+                if isinstance(it.context_expr, ast.Call) and norm(it.context_expr.func) == "open" and it.optional_vars is not None and any(c2 is n for n in ast.walk(w)):
+                    opened.add(norm(it.optional_vars))
+        is_file = a0 is not None and (norm(a0) in opened or (isinstance(a0, ast.Call) and norm(a0.func) in ("open", "handle_input_file")))
+        is_path = a0 is not None and norm(a0).startswith("args.")
+        if is_file:
+            chk.ok("csv-metadata-arg", mn.site(c2), f"read_metadata receives the open file `{norm(a0)}`")
+        elif is_path:
+            chk.violation("csv-metadata-arg", mn.site(c2), f"read_metadata (which reads file.name) receives the path string `{norm(a0)}`: --csv raises AttributeError as soon as one clash is found, no CSV is written", K(mn, f"read_metadata({norm(a0)})"))
+        else:
+            chk.error("csv-metadata-arg", mn.site(c2), f"argument `{norm(a0) if a0 is not None else None}` of read_metadata not classified (path or open file)")
     # accumulators read what they write
     for s in ast.walk(mn.node):
         if isinstance(s, ast.Assign) and isinstance(s.targets[0], ast.Subscript) and isinstance(s.value, ast.Call) and astq.callee_name(s.value) == "max":
